@@ -19,6 +19,8 @@ RULE = ('Hypothesis-generated resource trees (<= 20 nodes, depth <= 4, handles /
         'setattr/delattr on every snapshot node (existing, new, non-identifier names) must raise and the whole '
         'mirror check must pass again afterwards. '
         'In ~13% of the cases the root level gets 40-260 further handles (the first and the last of them shadowing an older one). '
+        ''
+        'Before the mutation attempts every resource is unloaded: a rejected mutation must not load anything. '
         'Non-trivial = identifier and non-identifier names side by '
         'side in one map, depth >= 2, and a layered handle or an underscore-prefixed identifier. Distinct = sha1 '
         'of canonical JSON.')
